@@ -37,6 +37,8 @@ PASS_THROUGH = (
     r'^core::intrinsics::transmute$',
 )
 _PASS_RE = re.compile('|'.join('(?:%s)' % p for p in PASS_THROUGH))
+# symbolic evaluation keeps pointer arithmetic visible
+_SYM_PASS_RE = re.compile('|'.join('(?:%s)' % p.replace('cast|cast_const|add|offset|byte_add|as_ref|as_mut', 'cast|cast_const|as_ref|as_mut').replace('cast|cast_mut|add|offset|byte_add|as_ref', 'cast|cast_mut|as_ref') for p in PASS_THROUGH))
 
 ATOMIC_RE = re.compile(r'^core::sync::atomic::Atomic::<(\w+)>::(load|store|swap|compare_exchange|compare_exchange_weak|fetch_add|fetch_sub|fetch_and|fetch_or|fetch_xor|fetch_nand|fetch_max|fetch_min|fetch_update)$')
 
@@ -1074,7 +1076,7 @@ def sym_place(fn, place, depth=0):
         return ('?', k)
     else:
         c = site.callee
-        if c is not None and _PASS_RE.search(c) and site.args:
+        if c is not None and _SYM_PASS_RE.search(c) and site.args:
             return _proj(sym(fn, site.args[0], depth + 1), proj)
         args = tuple(sym(fn, a, depth + 1) for a in site.args)
         return _proj(('call', site.callee_full or site.callee or 'ptr', args), proj)
